@@ -161,6 +161,10 @@ theorem wire (key nonce payload : Bytes) (hk : key.length = 32) (hn : nonce.leng
   rw [(send_accepts key nonce payload hk hn hp).1, encodeFrame, (length_field payload.length (by omega)).1]
   rfl
 
+/-- the hypotheses of `send_accepts` / `wire` / `stream_with_refusals` are satisfiable, at the limit itself -/
+example : ∃ key nonce payload : Bytes, key.length = 32 ∧ nonce.length = 12 ∧ payload.length = 1048576 :=
+  ⟨List.replicate 32 1, List.replicate 12 2, List.replicate 1048576 3, List.length_replicate, List.length_replicate, List.length_replicate⟩
+
 /-! ## the reader thread and `receive_loop` -/
 
 /-- How the byte stream is cut into pieces never matters, for any bytes at all (well-formed or not). -/
